@@ -146,10 +146,12 @@ var registry = map[string]func(*Run) error{}
 // ---- shared helpers ----------------------------------------------------------
 
 func (r *Run) timeout() int {
+	// The slowest obligations of the unchanged tree (trace equality of messages that hold byte arrays) need
+	// 15-20 s on a loaded machine; the limits leave a factor of two to three above that.
 	if r.Tier == "thorough" {
-		return 60
+		return 90
 	}
-	return 25
+	return 45
 }
 
 // loadEngine loads packages of the repository (tag verif) with all contract files.
